@@ -254,6 +254,12 @@ func memoNestedInBind(par, rounds int, rng *hx.Rand) (int, string) {
 				if key%3 == 2 {
 					return incr.Map2(s, w.x, incr.Map(s, w.x, inc), func(a, b int) int { return a + b + 100*key + up })
 				}
+				if key%3 == 1 {
+					// an aggregate inside the cached subgraph: it leaves the graph and re-enters it with the key
+					fold := incr.UnorderedArrayFold(s, 0, func(acc, v int) int { return acc + v }, func(acc, o, n int) int { return acc - o + n },
+						incr.Map(s, w.x, inc), incr.Map(s, w.x, inc))
+					return incr.Map(s, fold, func(v int) int { return v - 2 - w.x.Value() + 100*key + up })
+				}
 				return incr.Map(s, w.x, func(v int) int { return v + 100*key + up })
 			}
 			if memoized {
@@ -312,6 +318,74 @@ func memoNestedInBind(par, rounds int, rng *hx.Rand) (int, string) {
 			w.obs.Unobserve(ctx)
 			if n := incr.ExpertGraph(w.g).NumNodes(); n != 0 {
 				return passes, fmt.Sprintf("round %d: %d nodes left after the only observer was released (memoized=%v)", r, n, w.memoized)
+			}
+		}
+	}
+	return passes, ""
+}
+
+// a cached right-hand side that contains aggregates leaves the graph and re-enters it when its
+// key comes back; inputs are written while it is away and after it is back
+func memoFoldReuse(par, rounds int, rng *hx.Rand) (int, string) {
+	passes := 0
+	inc := func(v int) int { return v + 1 }
+	for r := 0; r < rounds; r++ {
+		type world struct {
+			g    *incr.Graph
+			x, y incr.VarIncr[int]
+			key  incr.VarIncr[int]
+			obs  incr.ObserveIncr[int]
+		}
+		build := func(memoized bool) *world {
+			w := &world{g: newGraph(par)}
+			g := w.g
+			w.x, w.y, w.key = incr.Var(g, 1), incr.Var(g, 2), incr.Var(g, 0)
+			rhs := func(s incr.Scope, key int) incr.Incr[int] {
+				fold := incr.UnorderedArrayFold(s, 0, func(acc, v int) int { return acc + v }, func(acc, o, n int) int { return acc - o + n },
+					incr.Map(s, w.x, inc), incr.Map(s, w.y, inc), incr.Map(s, w.x, inc))
+				red := incr.ReduceBalanced(s, func(a, b int) int { return a + b }, incr.Map(s, w.x, inc), incr.Map(s, w.y, inc), incr.Map(s, w.y, inc))
+				return incr.Map2(s, fold, red, func(a, b int) int { return a + b + 1000*key })
+			}
+			var b incr.Incr[int]
+			if memoized {
+				b = incrutil.BindMemoized(g, w.key, rhs)
+			} else {
+				b = incr.Bind(g, w.key, rhs)
+			}
+			w.obs = incr.MustObserve(g, b)
+			return w
+		}
+		memo, plain := build(true), build(false)
+		x, y, key := 1, 2, 0
+		px, py, pkey := x, y, key
+		for step := 0; step < 16; step++ {
+			for _, w := range []*world{plain, memo} {
+				if x != px {
+					w.x.Set(x)
+				}
+				if y != py {
+					w.y.Set(y)
+				}
+				if key != pkey {
+					w.key.Set(key)
+				}
+				if err := pass(w.g, par); err != nil {
+					return passes, fmt.Sprintf("round %d step %d: the pass failed: %.160s", r, step, err.Error())
+				}
+				passes++
+			}
+			want := 2*(x+1) + (y + 1) + (x + 1) + 2*(y+1) + 1000*key
+			if plain.obs.Value() != want || memo.obs.Value() != want {
+				return passes, fmt.Sprintf("round %d step %d (x=%d y=%d key=%d): Bind reads %d, BindMemoized reads %d, from scratch %d", r, step, x, y, key, plain.obs.Value(), memo.obs.Value(), want)
+			}
+			px, py, pkey = x, y, key
+			switch rng.Intn(3) {
+			case 0:
+				key = rng.Intn(3)
+			case 1:
+				x = rng.Intn(50)
+			default:
+				y = rng.Intn(50)
 			}
 		}
 	}
@@ -489,6 +563,7 @@ func main() {
 		{"var-in-bind-scope-set-from-a-lower-block", "a queued var created inside a bind scope is written (deferred Set) by a node function of a lower height block", varInScopeSetFromBelow},
 		{"writes-from-update-handlers", "a var written mid-pass by a node function and afterwards by an update handler of the same pass; Updates from handlers", setFromUpdateHandler},
 		{"memoized-bind-nested-in-a-bind", "BindMemoized created inside a bind's function under an upstream bind of changing depth, against its plain-Bind twin", memoNestedInBind},
+		{"memoized-rhs-with-aggregates-reused", "a cached right-hand side containing UnorderedArrayFold/ReduceBalanced leaves and re-enters the graph with its key, inputs written meanwhile", memoFoldReuse},
 		{"failing-siblings-queue-children", "nodes of one height block fail or panic and re-queue themselves while siblings queue children", failingSiblings},
 		{"fold-many-inputs", "UnorderedArrayFold with repeated inputs, most inputs changing in one pass", foldManyInputs},
 		{"binds-sharing-outer-nodes", "six binds of one height switch between shared outer nodes of different heights in one pass", bindsSharingOuter},
